@@ -939,6 +939,8 @@ KV = "nostr_relay/storage/kv.py"
 BASE = "nostr_relay/storage/base.py"
 
 MUTANTS = [
+    M("c01-delegation-found-decides", "nostr_relay/storage/base.py", "                if match:\n                    matched.add(True)", "                if has_delegation:\n                    matched.add(True)", "C01.hastag"),
+    M("c01-skip-empty-id", "nostr_relay/storage/base.py", "        hexid = hexid.lower()\n", "        hexid = hexid.lower()\n        if not hexid:\n            continue\n", "C01.hextotal"),
     M("c01-tagname-unescaped", DB, "                tagname = tagname.replace(\"'\", \"''\")\n", "", "C01.sql"),
     M("c01-value-quote-undoubled", DB, "                        val = val.replace(\"'\", \"''\")\n", "", "C01.sql", canary=True),
     M("c01-value-wrong-replace", DB, "val.replace(\"'\", \"''\")", "val.replace('\"', '\"\"')", "C01.sql"),
